@@ -87,6 +87,7 @@ structure DState where
   pipes : List (Nat × PipeInst) := []
   f64s : List (Nat × FInst Float) := []
   f32s : List (Nat × FInst Float32) := []
+  i64s : List (Nat × FInst I64) := []
   lineNo : Nat := 0
   caseNo : Nat := 0
   nOps : Nat := 0
